@@ -45,7 +45,9 @@ def run(ctx, R):
     # own code (`mask & 1`, `mask >> 2`, ...) is interpreted, not modelled; results are decoded back to the algebraic view.
     from . import tybits as B
     intr = B.intrinsics()
-    types = T.all_types()
+    # one interned base name ("Int": a shared Arc) and one that is allocated afresh for every type ("Float"): operands are
+    # always built separately, so code that compares base names by pointer instead of by text is seen to fail
+    types = T.all_types(bases=("Int", "Float"))
     R.units["types"] = len(types)
     R.units["representation"] = "concrete bit masks (rules/tybits.py)"
 
